@@ -241,3 +241,44 @@ func VerifC13Retry() {
 }
 
 var _ = proto.Event_PUT
+
+// VerifC13ManyPartitions: an engine that reports many pieces (more than any fixed worker pool a
+// scan might use): three keys with several versions, `pieces`-1 concrete borders spread over the
+// index records and the versions of all keys (reported in reverse order), and an unlimited range
+// read, count, whole-range stream or per-partition streams at a symbolic readable revision.
+func VerifC13ManyPartitions() {
+	w := vNewWorld(3)
+	w.create("k0", vNames[0])
+	w.create("k1", vNames[1])
+	w.create("k2", vNames[2])
+	w.vWriteSeqOn(vNames[1], 1)
+	w.vWriteSeqOn(vNames[2], 1)
+	zzverif.WaitIdle()
+	n := zzverif.Param("pieces", 40)
+	p := &vPartitioner{w: w, order: 1}
+	for i := 0; i < n-1; i++ {
+		// borders inside every key's versions, ascending: (name0, 1..), (name1, ..), (name2, ..)
+		p.borders = append(p.borders, w.b.coder.EncodeObjectKey(vNames[(3*i)/(n-1)], uint64(1+i%((n+1)/3))))
+	}
+	sorted := append([][]byte(nil), p.borders...)
+	for i := 1; i < len(sorted); i++ {
+		for j := i; j > 0 && bytes.Compare(sorted[j-1], sorted[j]) > 0; j-- {
+			sorted[j-1], sorted[j] = sorted[j], sorted[j-1]
+		}
+	}
+	p.borders = sorted
+	w.s.Partitions = p.partitions
+	rg := vRanges[0]
+	r := w.readRev("R")
+	switch zzverif.Choose("read", 4) {
+	case 0:
+		w.checkList(rg[0], rg[1], r, 0)
+	case 1:
+		w.checkCount(rg[0], rg[1])
+	case 2:
+		w.checkStream(rg[0], rg[1], r)
+	default:
+		w.checkStreamPerPartition(rg[0], rg[1], r)
+	}
+	zzverif.Cover("done")
+}
